@@ -987,6 +987,10 @@ def cmp_c06(payload, impl, model):
     bound = 2 * CAP + 16384 * n + (4 << 20)
     if alloc > bound:
         return viol("allocated %d bytes for an input of %d bytes (bound: 2 x 32 MiB + 16 KiB per input byte + 4 MiB)" % (alloc, n))
+    # chunk floods (flat inputs far below the per-item cap): the generous per-byte slack above, needed for
+    # deeply nested untyped documents, would hide a per-chunk copy of the accumulated item
+    if kv.get("tight") == "1" and alloc > (2 << 20) + 128 * n:
+        return viol("allocated %d bytes for a flat chunked string of %d bytes (bound: 2 MiB + 128 bytes per input byte)" % (alloc, n))
     mkv = dict(_KV.findall(model))
     req = int(mkv.get("req", "0"))
     if req > 2 * CAP + 8 * n + 64:
